@@ -8,7 +8,8 @@ EXTENDS Sec, TLC, Json, SequencesExt
 
 CONSTANTS PWSeq,     \* password alphabet as a sequence (must contain "")
           HAlgs,     \* algorithms explored (each behaviour uses one)
-          MaxLen,    \* maximum history length
+          MaxLen,    \* maximum history length for the algorithms in DeepAlgs (one less for the others)
+          DeepAlgs,
           ProbeAll,  \* TRUE: probe every pair in PWs x PWs, FALSE: only pairs with one empty component
           Emit
 
@@ -35,7 +36,7 @@ StepSet(a, d) ==
 
 Init == alg \in HAlgs /\ doc = Plain /\ hist = <<>>
 
-Next == /\ Len(hist) < MaxLen
+Next == /\ Len(hist) < (IF alg \in DeepAlgs THEN MaxLen ELSE MaxLen - 1)
         /\ (IF hist = <<>> THEN TRUE ELSE hist[Len(hist)].out = "ok")
         /\ \E s \in StepSet(alg, doc) :
              /\ hist' = Append(hist, [s |-> s, out |-> Outcome(doc, s), pre |-> doc])
